@@ -321,7 +321,8 @@ def _check(engine, prop, tier, seed, jobs, args, t0):
                     agg['samples'].extend(out['samples'])
                 if time.time() - t0 > wall_cap:
                     truncated = True
-                elif len([v for v in agg['violations'] if v[1] is not None]) >= 8:
+                elif len([v for v in agg['violations']
+                          if v[1] is not None and match_known(known, v[2]) is None]) >= 8:
                     truncated = True
                 if not truncated:
                     c = next(it, None)
